@@ -620,6 +620,9 @@ func (e *Exec) checkFrameAgainst(mods []ast.Expr, entry *State, finals []*State,
 			if !isHeapKey(k) && !strings.HasPrefix(k, "GV!") {
 				continue
 			}
+			if strings.HasPrefix(k, "GV!") && fr.contract != nil && fr.contract.isGhostLocal(strings.TrimPrefix(k, "GV!")) {
+				continue // a ghost local of this activation: invisible to callers
+			}
 			ev := e.get(entry, k, v.T)
 			if ev.S == v.S {
 				continue
@@ -683,26 +686,36 @@ func (e *Exec) refInv(st *State, v Term, depth int) {
 func callOrdinals(body *ast.BlockStmt) map[*ast.CallExpr]string {
 	m := map[*ast.CallExpr]string{}
 	cnt := map[string]int{}
-	ast.Inspect(body, func(x ast.Node) bool {
-		if _, ok := x.(*ast.FuncLit); ok {
-			return false
-		}
-		call, ok := x.(*ast.CallExpr)
-		if !ok {
+	var lits []*ast.FuncLit
+	var visit func(n ast.Node)
+	visit = func(n ast.Node) {
+		ast.Inspect(n, func(x ast.Node) bool {
+			if fl, ok := x.(*ast.FuncLit); ok {
+				// calls inside function literals are numbered after those of the enclosing body
+				lits = append(lits, fl)
+				return false
+			}
+			call, ok := x.(*ast.CallExpr)
+			if !ok {
+				return true
+			}
+			name := ""
+			switch f := unparen(call.Fun).(type) {
+			case *ast.Ident:
+				name = f.Name
+			case *ast.SelectorExpr:
+				name = f.Sel.Name
+			}
+			if name != "" {
+				cnt[name]++
+				m[call] = fmt.Sprintf("%s:%d", name, cnt[name])
+			}
 			return true
-		}
-		name := ""
-		switch f := unparen(call.Fun).(type) {
-		case *ast.Ident:
-			name = f.Name
-		case *ast.SelectorExpr:
-			name = f.Sel.Name
-		}
-		if name != "" {
-			cnt[name]++
-			m[call] = fmt.Sprintf("%s:%d", name, cnt[name])
-		}
-		return true
-	})
+		})
+	}
+	visit(body)
+	for i := 0; i < len(lits); i++ {
+		visit(lits[i].Body)
+	}
 	return m
 }
